@@ -892,6 +892,7 @@ class tensor:
             all_diffs = np.zeros((cnt, 1))
             all_perms = np.zeros((cnt, n))
             p_idx = -1
+            all_equal = True
             for a_group in grps:
                 # Compute the permutations for this group of symmetries
                 for group_perm in permutations(a_group):
@@ -905,13 +906,20 @@ class tensor:
                     if np.array_equal(self.data, Y.data):
                         all_diffs[p_idx] = 0
                     else:
+                        # The answer is the exact comparison; the difference is
+                        # taken in double precision (logical data has no
+                        # subtraction, unsigned / narrow integer data wraps)
+                        all_equal = False
                         all_diffs[p_idx] = np.max(
-                            np.abs(self.data.ravel() - Y.data.ravel())
+                            np.abs(
+                                self.data.ravel().astype(float)
+                                - Y.data.ravel().astype(float)
+                            )
                         )
 
             if return_details is False:
-                return bool((all_diffs == 0).all())
-            return bool((all_diffs == 0).all()), all_diffs, all_perms
+                return all_equal
+            return all_equal, all_diffs, all_perms
 
     def logical_and(self, other: Union[float, tensor]) -> tensor:
         """
